@@ -151,6 +151,12 @@ def run(tier, seed):
     ebehs, eres = lifecycle.edge_behaviours(4 if tier == "quick" else 5)
     for k, b in enumerate(ebehs):
         lifecycle.replay(b, k + seed, judge, probe=True)
+    # one variable / one BC object, both sides, the full edit alphabet, deeper: every edit - solve - edit - solve
+    # pattern (e.g. periodic switched on, solve, switched off, solve) is an edge of this graph
+    dbehs, dres = lifecycle.edge_behaviours(5 if tier == "quick" else 7, cfg_name="FVLifecycle_edges_deep.cfg")
+    for k, b in enumerate(dbehs):
+        lifecycle.replay(b, k + seed + 3, judge, probe=True)
+    ebehs = ebehs + dbehs
     if judge.solves == 0:
         raise tlcrun.MachineryError("vacuity: no SolvePDE step was replayed")
     report_failures(rep, judge, ("C09_",))
